@@ -12,9 +12,25 @@ def main():
         wh = ctypes.c_void_p.in_dll(lib, 'mju_user_warning'); wh.value = ctypes.cast(lib.vf_warning_count, ctypes.c_void_p).value
     except ValueError: pass
     addr = {}
+    mode = spec.get('alloc', 'malloc')
+    if mode != 'malloc':
+        # guard pages: every object ends exactly at ('end') or starts exactly at ('start') a page boundary whose neighbour page is inaccessible,
+        # so that an out-of-bounds access of ANY distance up to a page faults (ASan's red zones only cover a few bytes)
+        PAGE = 4096
+        libc.mmap.restype = ctypes.c_void_p; libc.mmap.argtypes = [ctypes.c_void_p, ctypes.c_size_t, ctypes.c_int, ctypes.c_int, ctypes.c_int, ctypes.c_long]
+        libc.mprotect.argtypes = [ctypes.c_void_p, ctypes.c_size_t, ctypes.c_int]
     for o in spec['objs']:
-        a = libc.malloc(max(o['size'], 1)); addr[o['name']] = a
-        ctypes.memset(a, 0 if o['zero'] else 0xA5, max(o['size'], 1))
+        n = max(o['size'], 1)
+        if mode == 'malloc':
+            a = libc.malloc(n)
+        else:
+            npg = (n + PAGE - 1) // PAGE
+            base = libc.mmap(None, (npg + 2) * PAGE, 3, 0x22, -1, 0)      # PROT_READ|PROT_WRITE, MAP_PRIVATE|MAP_ANONYMOUS
+            libc.mprotect(base, PAGE, 0); libc.mprotect(base + (npg + 1) * PAGE, PAGE, 0)
+            a = base + PAGE + (npg * PAGE - n if mode == 'end' else 0)
+            if mode == 'end': a -= a % 8 if n % 8 == 0 else 0
+        addr[o['name']] = a
+        ctypes.memset(a, 0 if o['zero'] else 0xA5, n)
     FMT = {'i8': 'B', 'u8': 'B', 'i16': 'H', 'i32': 'I', 'u32': 'I', 'i64': 'Q', 'u64': 'Q', 'f64': 'd', 'f32': 'f', 'ptr': 'Q'}
     def val(ty, v):
         if ty == 'ptr': return 0 if v is None else addr[v[0]] + v[1]
